@@ -7,7 +7,8 @@ LEAN_MODULE = "HexProps.C03"
 # (component, quick cases, max stream size)
 SCOPE = [("arith", 40, 60), ("manager.collapse", 400, 60)]
 ORACLE_RULE = ("C03: random stream x timeframe x append schedule (+ repeated _tasks passes) on the real CandleManager, "
-               "compared exactly with an independent resampler; non-trivial = at least 2 candles and at least one append or a multi-candle construction")
+               "compared exactly with an independent resampler; and a Hexital whose members name several timeframes (nesting or not, history at "
+               "construction and/or appends): every manager it holds against the same resampler; non-trivial = at least 2 candles and at least one append or a multi-candle construction")
 ASSUMPTIONS = ["timestamps are naive datetimes at second resolution; process TZ=UTC for this check (C18 owns time zones)",
                "integer magnitudes below 2^53"]
 PARTIAL = ""
@@ -16,7 +17,9 @@ _case = om.make_case(ID, tf=True, fill=False)
 
 def oracle(ctx):
     n = (300 if ctx["tier"] == "quick" else 3000) * ctx["boost"]
-    return cm.run_cases(_case, ctx["seed"], ID, n, {"size": 60 if ctx["tier"] == "quick" else 300})
+    sz = {"size": 60 if ctx["tier"] == "quick" else 300}
+    return cm.merge_results(cm.run_cases(_case, ctx["seed"], ID, n, sz),
+                            cm.run_cases(om.case_hexital_tfs, ctx["seed"], ID + "hx", n // 3, sz))
 
 
 replay = om.replay
